@@ -568,6 +568,33 @@ pub fn worker(case: &Value) -> Value {
     let mut n = 0u64;
     let mut sample = Value::Null;
     match g {
+        "late" => {
+            // a DEFtype statement in the middle of the program: names used before it keep the default they had
+            for (q, first_val, first_out, second_val, second_out) in [
+                (Q::Int, "1.75", " 1.75 ", "2.25", " 2 "),
+                (Q::Lng, "1.75", " 1.75 ", "70000.25", " 70000 "),
+                (Q::Dbl, "1.75", " 1.75 ", "2.25", " 2.25 "),
+                (Q::Str, "1.75", " 1.75 ", "\"s\"", "s"),
+                (Q::Sng, "1.75", " 1.75 ", "2.25", " 2.25 "),
+            ] {
+                for sub in [false, true] {
+                    let body = format!("Nam = {}\nPRINT Nam\n{} N\nNbm = {}\nPRINT Nbm\nPRINT Nam!\n", first_val, q.def_kw(), second_val);
+                    let text = if sub {
+                        // the same names used only inside a SUB that stands after the DEFtype statement: they have the new default
+                        format!("Nam = {}\nPRINT Nam\n{} N\nW\nPRINT Nam!\nSUB W\nNbm = {}\nPRINT Nbm\nEND SUB\n", first_val, q.def_kw(), second_val)
+                    } else {
+                        body
+                    };
+                    let out = if sub { format!("{}\r\n{}\r\n{}\r\n", first_out, second_out, first_out) } else { format!("{}\r\n{}\r\n{}\r\n", first_out, second_out, first_out) };
+                    let e = Expect { text, want: Ok(out), label: format!("{:?} statement after the first use of a bare name{}", q, if sub { ", second name in a SUB" } else { "" }), sigkey: "DEFtype in the middle of the program".into() };
+                    n += 1;
+                    if sample.is_null() {
+                        sample = json!({"group": g, "label": e.label, "text": e.text});
+                    }
+                    judge(&e, g, &mut hist, &mut bads, json!({"g": g, "quick": quick, "lo": 0, "hi": 1}));
+                }
+            }
+        }
         "deftype" => {
             let configs = def_configs(quick);
             for idx in lo..hi.min(configs.len()) {
@@ -635,6 +662,7 @@ pub fn drive(tier: &str) -> i32 {
         ("global", DEFS.len() * decls().len() * use_sequences(if quick { 2 } else { 3 }).len()),
         ("sub", 7 * 216),
         ("fn", 5 * 216),
+        ("late", 1),
     ];
     for (g, t) in totals {
         let chunk = if g == "deftype" { 20 } else { 150 };
@@ -654,7 +682,7 @@ pub fn drive(tier: &str) -> i32 {
         run.capped = true;
     }
     let mut ev = Evidence::new("exploration");
-    ev.set("rule", "deftype: every DEFINT / DEFLNG / DEFSNG / DEFDBL / DEFSTR statement over every single letter and every range with ends in {A, B, M, Y, Z} (thorough: all 325 ranges), lower / mixed case of keyword and range ends, two ranges in one statement and a later statement overriding an earlier one; each program assigns the five suffixed variables of a name starting with each of the 26 letters and prints the bare name (in another letter case): the model's 26-entry default table predicts which one it is. global: default type of the first letter (none or one of 5 DEFtype statements) x declaration (none, DIM name AS each of 5 types, DIM with each of the 6 spellings) x every sequence of 1..2 (thorough 3) assignments through the 6 spellings (bare and five suffixes) in rotating letter case: the model predicts the first spelling the checker must reject (after DIM AS type only the bare name and the matching suffix are legal) or, if none, the value each spelling prints. sub: an unshared global against a local of the same spelling, against a local declared AS each type and against a parameter declared AS each type; DIM SHARED with each spelling while another spelling is used first in the SUB; DIM SHARED AS type against each spelling; a global CONST read and assigned in a SUB; a parameter in each spelling with another spelling used first — each under every default type. fn: a FUNCTION declared with each spelling and called with each spelling (the same function iff the types agree), its result assigned twice through each spelling of the same type (the last value counts) and through every other spelling (not decided by the rules: any BASIC-level outcome, no internal failure), a parameter in each spelling given a variable of each type by reference, a parameter declared AS each type used through each spelling inside — each under every default type.");
+    ev.set("rule", "deftype: every DEFINT / DEFLNG / DEFSNG / DEFDBL / DEFSTR statement over every single letter and every range with ends in {A, B, M, Y, Z} (thorough: all 325 ranges), lower / mixed case of keyword and range ends, two ranges in one statement and a later statement overriding an earlier one; each program assigns the five suffixed variables of a name starting with each of the 26 letters and prints the bare name (in another letter case): the model's 26-entry default table predicts which one it is. late: a DEFtype statement after the first use of a bare name (the name keeps its earlier default, names first used afterwards have the new one, also inside a SUB that follows). global: default type of the first letter (none or one of 5 DEFtype statements) x declaration (none, DIM name AS each of 5 types, DIM with each of the 6 spellings) x every sequence of 1..2 (thorough 3) assignments through the 6 spellings (bare and five suffixes) in rotating letter case: the model predicts the first spelling the checker must reject (after DIM AS type only the bare name and the matching suffix are legal) or, if none, the value each spelling prints. sub: an unshared global against a local of the same spelling, against a local declared AS each type and against a parameter declared AS each type; DIM SHARED with each spelling while another spelling is used first in the SUB; DIM SHARED AS type against each spelling; a global CONST read and assigned in a SUB; a parameter in each spelling with another spelling used first — each under every default type. fn: a FUNCTION declared with each spelling and called with each spelling (the same function iff the types agree), its result assigned twice through each spelling of the same type (the last value counts) and through every other spelling (not decided by the rules: any BASIC-level outcome, no internal failure), a parameter in each spelling given a variable of each type by reference, a parameter declared AS each type used through each spelling inside — each under every default type.");
     ev.set("exhaustive", !run.capped);
     ev.set("plan", json!(plan));
     ev.set("distinct_nontrivial", run.nontrivial);
